@@ -43,6 +43,7 @@
 #include "colvarbias.h"
 #include "colvarbias_restraint.h"
 #include "colvarbias_opes.h"
+#include "colvarbias_meta.h"
 #include "colvarproxy.h"
 #undef private
 #undef protected
@@ -59,6 +60,7 @@ int main()
   int nbias = 0;
   std::map<std::string, colvarbias_opes *> opes_cache;
   std::map<colvar *, colvarbias_restraint_harmonic *> hb_cache;
+  std::map<colvar *, colvarbias_meta *> ml_cache;
   std::map<colvar *, colvarbias_restraint_harmonic_walls *> hw_cache;
   std::map<std::string, colvar *> cache;
   int ncv = 0;
@@ -240,7 +242,7 @@ int main()
         colvarvalue x1(v1, colvarvalue::type_vector), x2(v2, colvarvalue::type_vector);
         o << H(x1 * x2) << " " << H(x1.norm2()) << "\n";
       }
-    } else if (cmd == "CD" || cmd == "CW" || cmd == "HB" || cmd == "FV") {
+    } else if (cmd == "CD" || cmd == "CW" || cmd == "HB" || cmd == "FV" || cmd == "ML") {
       // a real single-component variable of the given kind: colvar::dist2, dist2_lgrad, dist2_rgrad (CD) or colvar::wrap (CW)
       std::string kind = a[p++];
       double wc = nf();
@@ -346,6 +348,31 @@ int main()
         hb->force_k = k; cv->width = w; cv->x = x; cv->x_reported = x; hb->colvar_centers[0] = c;
         o << H(hb->restraint_potential(0)) << " " << vs_hex(hb->restraint_force(0)) << "\n";
         cv->width = 1.0;
+      } else if (cmd == "ML") {
+        // one metadynamics hill on this variable: ML kind wc n W sigma x[n] centre[n] -> calc_hills energy, calc_hills_force
+        double W = nf(), sigma = nf();
+        colvarvalue x = rd(proto), c = rd(proto);
+        colvarbias_meta *mb = NULL;
+        if (ml_cache.count(cv)) mb = ml_cache[cv];
+        else {
+          std::string bname = "ml" + cvm::to_str(nbias++);
+          std::string bconf = "metadynamics {\n  name " + bname + "\n  colvars " + cv->name + "\n  hillWeight 1.0\n  hillWidth 1.0\n  newHillFrequency 1000\n  useGrids off\n}\n";
+          cvm::clear_error();
+          S.proxy->colvars->read_config_string(bconf);
+          mb = dynamic_cast<colvarbias_meta *>(cvm::bias_by_name(bname));
+          if (cvm::get_error()) mb = NULL;
+          cvm::clear_error();
+          ml_cache[cv] = mb;
+        }
+        if (!mb) { o << "nobias\n"; continue; }
+        std::list<colvarbias_meta::hill> hl;
+        hl.push_back(colvarbias_meta::hill(0, W, std::vector<colvarvalue>(1, c), std::vector<cvm::real>(1, sigma)));
+        std::vector<colvarvalue> values(1, x);
+        std::vector<colvarvalue> forces(1, proto); forces[0].reset();
+        cvm::real energy = 0.0;
+        mb->calc_hills(hl.begin(), hl.end(), energy, &values);
+        mb->calc_hills_force(0, hl.begin(), hl.end(), forces, &values);
+        o << H(energy) << " " << vs_hex(forces[0]) << "\n";
       } else if (cmd == "FV") {
         // finite-difference velocity: FV kind wc n dt xold[n] xnew[n] -> colvar::fdiff_velocity
         double dt = nf();
@@ -455,7 +482,7 @@ int main()
       o << out.substr(1) << "\n";
       delete b;
       cvm::clear_error();
-    } else if (cmd == "OM") {
+    } else if (cmd == "OM" || cmd == "OK") {
       // OPES kernel merge on a periodic distanceZ: OM P c h1 k1 s1 h2 k2 s2 -> merged centre, sigma, height
       double P = nf(), c = nf();
       char buf[256]; snprintf(buf, sizeof(buf), "%.17g %.17g", P, c);
@@ -477,6 +504,19 @@ int main()
         opes_cache[buf] = ob;
       }
       if (!ob) { o << "nobias\n"; continue; }
+      if (cmd == "OK") {
+        // one OPES kernel evaluated at x: OK P c h centre sigma cutoff2 val_at_cutoff x -> both overloads of evaluateKernel
+        double h = nf(), kc = nf(), sg = nf(), cut2 = nf(), vac = nf(), xv = nf();
+        cvm::real const save_c = ob->m_cutoff2, save_v = ob->m_val_at_cutoff;
+        ob->m_cutoff2 = cut2; ob->m_val_at_cutoff = vac;
+        colvarbias_opes::kernel K(h, std::vector<cvm::real>(1, kc), std::vector<cvm::real>(1, sg));
+        std::vector<cvm::real> xs(1, xv), der(1, 0.0), dist(1, 0.0);
+        cvm::real v1 = ob->evaluateKernel(K, xs);
+        cvm::real v2 = ob->evaluateKernel(K, xs, der, dist);
+        ob->m_cutoff2 = save_c; ob->m_val_at_cutoff = save_v;
+        o << H(v1) << " " << H(v2) << "\n";
+        continue;
+      }
       double h1 = nf(), k1 = nf(), s1 = nf(), h2 = nf(), k2 = nf(), s2 = nf();
       colvarbias_opes::kernel K1(h1, std::vector<cvm::real>(1, k1), std::vector<cvm::real>(1, s1));
       colvarbias_opes::kernel K2(h2, std::vector<cvm::real>(1, k2), std::vector<cvm::real>(1, s2));
